@@ -311,6 +311,8 @@ Proof.
   intros (ext & E1 & E2 & E3 & E4). unfold ae_commit.
   destruct ((0 <? aq_commit a) && (v_commit s8 <? aq_commit a)).
   2:{ exists ext. simpl. auto. }
+  cbv zeta. destruct (v_commit s8 <? _).
+  2:{ exists ext. simpl. auto. }
   match goal with |- context [process_logs ?S ?I] => destruct (process_logs S I) as [[s11 tra]|] eqn:EP end.
   - apply process_logs_keep in EP. destruct EP as (K & Kt & Ktr).
     exists ext. simpl. split; [rewrite tlf_app, Ktr, app_nil_r; exact E1|]. split; [exact E2|].
